@@ -78,6 +78,15 @@ struct ObsE {
     o: Option<Observer<Tv>>,
     expect: Exp,
     created_round: u32,
+    slot: usize,
+}
+
+/// an expert "join" over a var-of-incr slot: its dependency is swapped from the function of its
+/// child `lhs` whenever the var is given another node
+struct JoinInfo {
+    inc_slot: usize,
+    join_slot: usize,
+    lhs_slot: usize,
 }
 #[derive(Clone, Debug)]
 enum Exp {
@@ -95,6 +104,10 @@ struct W {
     slots: Vec<Slot>,
     obs: Vec<ObsE>,
     tracked: Vec<(String, Box<dyn Fn() -> usize>)>,
+    joins: Vec<JoinInfo>,
+    retained_by_held_observer: Vec<usize>,
+    /// nodes that a var-of-incr slot held before a write: (inc slot, description, strong count)
+    swapped_out: Vec<(usize, String, Box<dyn Fn() -> usize>)>,
     trace: Vec<String>,
     fails: Vec<Failure>,
     round: u32,
@@ -176,6 +189,7 @@ fn step(w: &mut W, ch: &mut Choices) {
         if live.is_empty() { 0 } else { 8 },      // 10 drop a handle
         if live_obs.is_empty() { 0 } else { 5 },  // 11 drop / disallow an observer
         if l0.is_empty() { 0 } else { 3 },        // 12 bind whose closure owns a memoised function
+        if live.iter().any(|i| matches!(w.slots[*i].h, Some(Handle::Inc(_)))) { 6 } else { 0 }, // 13 expert join over a var of incr
     ];
     match ch.weighted(&weights) {
         0 => stabilise(w),
@@ -358,7 +372,7 @@ fn step(w: &mut W, ch: &mut Choices) {
                 Handle::Node(i, what) => (i.observe(), Exp::Node(what.clone())),
             };
             w.trace.push(format!("o{} = observe(s{si})", w.obs.len()));
-            w.obs.push(ObsE { o: Some(o), expect: e, created_round: w.round });
+            w.obs.push(ObsE { o: Some(o), expect: e, created_round: w.round, slot: si });
         }
         9 => {
             let si = live[ch.choose(live.len())];
@@ -420,7 +434,31 @@ fn step(w: &mut W, ch: &mut Choices) {
                     w.trace.push(format!("s{si}.set(vec of {cids:?})"));
                     w.cells[cid.unwrap()] = Cell::Many(cids);
                 }
-                Handle::Inc(_) | Handle::Node(..) => {}
+                Handle::Inc(v) => {
+                    // give the var another node (a map over some leaf var); the node it held so far
+                    // loses its only handle
+                    if l0.is_empty() {
+                        return;
+                    }
+                    let v = v.clone();
+                    let oi = l0[ch.choose(l0.len())];
+                    let Some(Handle::L0(leaf)) = &w.slots[oi].h else { return };
+                    let lcid = w.slots[oi].cid.unwrap();
+                    let can = w.canary.clone();
+                    let node: Incr<Tv> = leaf.map(move |t: &Tv| {
+                        let _k = &can;
+                        t.clone()
+                    });
+                    w.track(format!("map over c{lcid} given to var-of-incr s{si}"), &node);
+                    let old = v.get();
+                    let ow = old.weak();
+                    drop(old);
+                    w.swapped_out.push((si, format!("the node var-of-incr s{si} held before round {}", w.round), Box::new(move || ow.strong_count())));
+                    v.set(node);
+                    w.cells[cid.unwrap()] = Cell::IncrOf(lcid);
+                    w.trace.push(format!("s{si}.set(s{oi}.map(clone))"));
+                }
+                Handle::Node(..) => {}
             }
         }
         10 => {
@@ -455,6 +493,50 @@ fn step(w: &mut W, ch: &mut Choices) {
             w.trace.push(format!("s{} = s{b}.bind(|t| memo(t % 2)) with memo = weak_memoize_fn(|k| s{a}.map(+k))", w.slots.len()));
             w.slots.push(Slot { cid: None, h: Some(Handle::Node(node, What::Memo(bcid, scid))) });
         }
+        13 => {
+            let incs: Vec<usize> = live.iter().copied().filter(|i| matches!(w.slots[*i].h, Some(Handle::Inc(_)))).collect();
+            let si = incs[ch.choose(incs.len())];
+            let Some(Handle::Inc(outer)) = &w.slots[si].h else { return };
+            let cid = w.slots[si].cid.unwrap();
+            // join written with the expert API as in the repository's tests/expert.rs
+            let prev: Rc<std::cell::RefCell<Option<incremental::expert::Dependency<Tv>>>> = Rc::new(None.into());
+            let can = w.canary.clone();
+            let join = Node::<Tv>::new(&st.weak(), {
+                let prev = prev.clone();
+                let can = can.clone();
+                move || {
+                    let _k = &can;
+                    prev.borrow().clone().unwrap().value_cloned()
+                }
+            });
+            let jw = join.weak();
+            let can2 = can.clone();
+            let lhs: Incr<Tv> = outer.map(move |rhs: &Incr<Tv>| {
+                // (the join's own handle may have been dropped: then there is nothing to rewire)
+                let Some(j) = jw.upgrade() else {
+                    prev.borrow_mut().take();
+                    return Tv { n: 0, _c: can2.clone() };
+                };
+                let dep = j.add_dependency(rhs);
+                let mut p = prev.borrow_mut();
+                if let Some(old) = p.take() {
+                    j.remove_dependency(old);
+                }
+                p.replace(dep);
+                Tv { n: 0, _c: can2.clone() }
+            });
+            join.add_dependency(&lhs);
+            let ji = join.watch();
+            drop(join);
+            w.track(format!("expert join over var-of-incr c{cid}"), &ji);
+            w.track(format!("dependency-swapping child of the expert join over c{cid}"), &lhs);
+            w.expert_used = true;
+            let (a, b) = (w.slots.len(), w.slots.len() + 1);
+            w.trace.push(format!("s{a} = expert join(s{si}), s{b} = its dependency-swapping child"));
+            w.slots.push(Slot { cid: None, h: Some(Handle::Node(ji, What::Leaf(cid))) });
+            w.slots.push(Slot { cid: None, h: Some(Handle::Node(lhs, What::Sum(vec![]))) });
+            w.joins.push(JoinInfo { inc_slot: si, join_slot: a, lhs_slot: b });
+        }
         _ => {
             let oi = live_obs[ch.choose(live_obs.len())];
             if ch.flag(1, 3) {
@@ -462,9 +544,13 @@ fn step(w: &mut W, ch: &mut Choices) {
                 if let Some(o) = &w.obs[oi].o {
                     o.disallow_future_use();
                 }
-                // the handle stays; from now on it reads Disallowed
+                // the handle stays; from now on it reads Disallowed. A held handle keeps its (no longer
+                // needed) node alive, and with it whatever that node last returned: no release is
+                // expected any more for what the observed slot gives up
                 w.obs[oi].expect = Exp::Node(What::Sum(vec![]));
                 w.obs[oi].created_round = u32::MAX;
+                let sl = w.obs[oi].slot;
+                w.retained_by_held_observer.push(sl);
             } else {
                 let o = w.obs[oi].o.take();
                 w.trace.push(format!("drop(o{oi})"));
@@ -479,11 +565,35 @@ fn step(w: &mut W, ch: &mut Choices) {
 fn stabilise(w: &mut W) {
     let Some(st) = w.st.clone() else { return };
     w.trace.push(format!("stabilise [round {}]", w.round));
+    // is this slot observed by an observer that is not disallowed?
+    let observed = |w: &W, slot: usize| w.obs.iter().any(|o| o.slot == slot && o.o.is_some() && o.created_round != u32::MAX);
     if let Err(m) = guarded(|| st.stabilise()) {
         w.fail("drop-panicked", format!("stabilise panicked: {m}"));
         w.st = None;
         return;
     }
+    // a node that a var-of-incr gave up must be gone once every expert join over that var has
+    // swapped its dependency (or if there is no such join); while a join's child is not needed it
+    // legitimately keeps the old dependency
+    let mut keep = vec![];
+    for (slot, what, count) in std::mem::take(&mut w.swapped_out) {
+        if w.retained_by_held_observer.contains(&slot) {
+            continue;
+        }
+        let all_joins_swapped = w.joins.iter().filter(|j| j.inc_slot == slot).all(|j| observed(w, j.join_slot) || observed(w, j.lhs_slot));
+        // the var's watch node caches the node it last saw: it lets go only when it is recomputed,
+        // i.e. when something needs it in this stabilise
+        let var_node_needed = observed(w, slot) || w.joins.iter().any(|j| j.inc_slot == slot && (observed(w, j.join_slot) || observed(w, j.lhs_slot)));
+        if all_joins_swapped && var_node_needed {
+            if count() > 0 {
+                let m = format!("round {}: {what} lost its last handle and every expert node depending on it has swapped its dependency, but it is still allocated ({} strong references)", w.round, count());
+                w.fail("removed-dependency-kept-alive", m);
+            }
+        } else {
+            keep.push((slot, what, count));
+        }
+    }
+    w.swapped_out = keep;
     for oi in 0..w.obs.len() {
         let Some(o) = &w.obs[oi].o else { continue };
         if w.obs[oi].created_round == u32::MAX {
@@ -515,6 +625,9 @@ pub fn run(bytes: &[u8], tier: Tier) -> Outcome {
         slots: vec![],
         obs: vec![],
         tracked: vec![],
+        joins: vec![],
+        retained_by_held_observer: vec![],
+        swapped_out: vec![],
         trace: vec!["[nested-ownership generator]".into()],
         fails: vec![],
         round: 0,
@@ -626,6 +739,9 @@ pub fn run_one_stabilise(bytes: &[u8], tier: Tier) -> Outcome {
         slots: vec![],
         obs: vec![],
         tracked: vec![],
+        joins: vec![],
+        retained_by_held_observer: vec![],
+        swapped_out: vec![],
         trace: vec!["[nested-ownership generator, all handles dropped then one stabilise]".into()],
         fails: vec![],
         round: 0,
